@@ -31,9 +31,14 @@ func stormResp(dst []byte, id uint64, n int) int {
 // TestC11AskStorm: "even when many asks to many peers are outstanding concurrently".
 func TestC11AskStorm(t *testing.T) {
 	const sub = "C11.ask_storm"
-	ev.Rule(sub, "rapid: ask-capable stacks over the in-memory transport (message-box with 1-3 receive workers on the default single-packet fast path, multiplexers, bare virtual swarm; depth 0-2), 2-4 nodes each serving with 1-8 ServeAsk loops; 4-12 asker goroutines spread over the nodes issue 20-100 asks each without pause to generated destinations, reusing their response buffer from ask to ask; a request is (8-byte id, wanted response length: one packet, near the packet limit or multi-part); the handler answers with the id repeated to that length. Oracle: a successful Ask returns exactly the wanted length and every byte belongs to its own id; the handler saw the asker's address; the response buffer holds nothing else after Ask returned. non-trivial = at least 4 asks were outstanding at one node at some moment; distinct by (spec, nodes, askers, sizes)")
+	ev.Rule(sub, "rapid: ask-capable stacks over the in-memory transport (message-box with 1-3 receive workers on the default single-packet fast path, multiplexers, bare virtual swarm; depth 0-2; in one case of four a message-box swarm over a transport that delivers every datagram twice), 2-4 nodes each serving with 1-8 ServeAsk loops; 4-12 asker goroutines spread over the nodes issue 20-100 asks each without pause to generated destinations, reusing their response buffer from ask to ask; a request is (8-byte id, wanted response length: one packet, near the packet limit or multi-part); the handler answers with the id repeated to that length. Oracle: a successful Ask returns exactly the wanted length and every byte belongs to its own id; the handler saw the asker's address; the response buffer holds nothing else after Ask returned. non-trivial = at least 4 asks were outstanding at one node at some moment; distinct by (spec, nodes, askers, sizes)")
 	rapid.Check(t, func(t *rapid.T) {
 		spec := genSpec(t, specOpts{maxDepth: 2, bases: []string{"mem"}, needAsk: true, noKinds: map[string]bool{"quic": true, "frag": true, "p2pke": true}, honestFrag: true})
+		if rapid.IntRange(0, 3).Draw(t, "duplicatingTransport") == 0 {
+			// a message-box swarm over a datagram transport that delivers every datagram twice (as UDP may)
+			base := rapid.SampledFrom([]int{256, 1000, 1500, 4096}).Draw(t, "dupBaseMTU")
+			spec = stack.Spec{Base: "mem", BaseMTU: base, QueueLen: 1024, Layers: []stack.Layer{{Kind: "dup"}, {Kind: "mbapp", MTU: (base - 24) * rapid.SampledFrom([]int{3, 10, 40}).Draw(t, "dupParts"), N: rapid.IntRange(1, 3).Draw(t, "dupWorkers")}}}
+		}
 		n := rapid.IntRange(2, 4).Draw(t, "nodes")
 		w, err := stack.Build(spec, n, 0)
 		if err != nil {
